@@ -35,6 +35,41 @@ type client interface {
 type inprocClient struct {
 	db    *kv.DB
 	stale *kv.DB // the handle this client closed last (a caller may still hold it)
+	dir   string
+}
+
+// failedRead: the holder writes one more record, the last byte of the active file is damaged under the open handle,
+// the record is read (the read fails - or not, that is C12's business), and the byte is put back. A read that failed
+// must not keep anything locked: the Close that follows has to return and give the directory up.
+func (c *inprocClient) failedRead(db *kv.DB) error {
+	if err := db.Put([]byte("r"), []byte("read-me-back")); err != nil {
+		return err
+	}
+	ents, _ := os.ReadDir(c.dir)
+	newest := ""
+	for _, e := range ents {
+		if strings.HasSuffix(e.Name(), ".data") && e.Name() > newest {
+			newest = e.Name()
+		}
+	}
+	if newest == "" {
+		return nil
+	}
+	f, err := os.OpenFile(filepath.Join(c.dir, newest), os.O_RDWR, 0)
+	if err != nil {
+		return nil
+	}
+	defer f.Close()
+	st, _ := f.Stat()
+	if st == nil || st.Size() == 0 {
+		return nil
+	}
+	var b [1]byte
+	f.ReadAt(b[:], st.Size()-1)
+	f.WriteAt([]byte{b[0] ^ 0x55}, st.Size()-1)
+	db.Get([]byte("r"))
+	f.WriteAt(b[:], st.Size()-1)
+	return nil
 }
 
 func (c *inprocClient) Open(dir string) string {
@@ -51,6 +86,7 @@ func (c *inprocClient) Open(dir string) string {
 	}()
 	if err == nil {
 		c.db = db
+		c.dir = dir
 	}
 	return procErrClass(err)
 }
@@ -105,7 +141,8 @@ func (c *inprocClient) Work(what string) string {
 			e4 := db.NewBatch(kv.BatchOptions{}).Commit()
 			e5 := db.Sync()
 			_, e6 := db.Get([]byte("a"))
-			err = first(e1, e2, e3, e4, e5, e6)
+			e7 := c.failedRead(db)
+			err = first(e1, e2, e3, e4, e5, e6, e7)
 		case "merge":
 			e1 := db.Put([]byte("a"), []byte("m1"))
 			e2 := db.Put([]byte("a"), []byte("m2"))
@@ -778,7 +815,14 @@ func c16NeighbourTask(res *TaskResult) {
 		root := filepath.Join(scratchRoot(), fmt.Sprintf("nb%d", n))
 		os.MkdirAll(root, 0o755)
 		dirA, dirB := filepath.Join(root, "db"), filepath.Join(root, "db-merge")
-		bad := func() string {
+		bad := func() (out string) {
+			// (registered first, runs last: a Close that the lock model refuses - the database lock is still held by a
+			// call that has returned - is a finding, not a crash of the harness)
+			defer func() {
+				if r := recover(); r != nil && out == "" {
+					out = fmt.Sprintf("closing the two databases at the end: panic: %v", r)
+				}
+			}()
 			b, err := kv.Open(defaultCfg.options(dirB))
 			if err != nil {
 				return "setup: " + err.Error()
